@@ -232,6 +232,9 @@ def check(run):
     engines.dangling_element_refs(run, [f for f in fx.repo_functions() if f.file.startswith(simlib.REPO_PREFIX)])
     import p01 as _p01
     _p01.accept_scratch_rule(run)
+    run.clause('a hop shared by both directions of a link does not crash or spin: the queue tolerates re-entrant delivery (shared with C09)')
+    import p09 as _p09
+    _p09.reentrancy_rule(run)
     run.clause('cancelling or destroying a resolver from inside its own completion handler is safe: on_lookup touches no member after invoking the handler (shared with C14)')
     import p14 as _p14
     ninv = 0
